@@ -384,3 +384,20 @@ def contracts():
     c = _c12.self_or_cls_contract()
     c.prop = "C04"
     return _c04_base_soc() + [c]
+
+
+# a copy starts with an idle dispatch state (no open batch, no trigger in progress; verified for C17), and
+# the update context hands every linked name to the restorer, mapping and keywords alike (verified for C08)
+_c04_base_r7 = contracts
+
+
+def contracts():
+    import ast
+    from contracts import c17 as _c17, c08 as _c08
+    from pyvc import source
+    islots = ast.literal_eval(source.Sources().modules[_c17.MOD].class_attr("_InstancePrivate", "__slots__"))
+    extra = [_c17.roundtrip_contract("_InstancePrivate", islots, False, "_InstancePrivate.__getstate__/__setstate__"),
+             _c08.update_refs_contract(False), _c08.update_refs_contract(True)]
+    for c in extra:
+        c.prop = "C04"
+    return _c04_base_r7() + extra
